@@ -264,8 +264,8 @@ _ROOT = "free_registers[type(dst_type)].append(dst_type)"
 
 def detect_variant(path=None):
     """Fail-closed recognition (python `ast`) of which of the modelled variants of match_and_rewrite the
-    working tree contains: (root_free, xor_old) as in coq/C20/Model.v `cfg`.  Only the two statements that
-    the proposed repairs C20-1 / C20-2 touch are inspected; everything else is covered by the correspondence."""
+    working tree contains: the five flags of coq/C20/Model.v `cfg`.  Only the statements that the repairs
+    C20-1 .. C20-5 touch are inspected; everything else is covered by the correspondence."""
     import ast
     from harness.common import Untranslatable
     if path is None:      # the file the pass is actually imported from
@@ -302,18 +302,53 @@ def detect_variant(path=None):
         xor_old = False
     else:
         raise Untranslatable(f"xor-swap loop is neither the pinned nor the repaired form: {got}")
-    return root_free, xor_old
+    # ---- C20-3: moves into `zero` handled at the top of the first loop
+    src_txt = ast.unparse(fn)
+    first = next((n for n in loops if ast.unparse(n.target) == "(idx, src, dst)"), None)
+    if first is None:
+        raise Untranslatable("the first loop of match_and_rewrite was not recognised")
+    zero_first = False
+    if "ZERO" in src_txt:
+        h = first.body[0]
+        want = ["width = op.input_widths.get_values()[idx]",
+                "results[idx] = _insert_mv_op(rewriter, src, dst.type, width).results[0]", "continue"]
+        if not (isinstance(h, ast.If) and not h.orelse and src_txt.count("ZERO") == 1
+                and ast.unparse(h.test) == "dst.type == riscv.Registers.ZERO and src.type != dst.type"
+                and [ast.unparse(x) for x in h.body] == want):
+            raise Untranslatable("the zero register is treated in an unmodelled way")
+        zero_first = True
+    # ---- C20-4: key of unprocessed_children
+    n_val, n_reg = src_txt.count("unprocessed_children[src]"), src_txt.count("unprocessed_children[src.type]")
+    if (n_val, n_reg) == (3, 0):
+        cnt_by_reg = False
+    elif (n_val, n_reg) == (0, 3):
+        cnt_by_reg = True
+    else:
+        raise Untranslatable(f"unprocessed_children is indexed in an unmodelled way ({n_val}, {n_reg})")
+    # ---- C20-5: width lookup
+    n_old, n_new = src_txt.count("src_type_by_src[src]"), src_txt.count("width_by_dst[dst_type]")
+    if (n_old, n_new) == (2, 0) and "width_by_dst" not in src_txt:
+        width_by_dst = False
+    elif (n_old, n_new) == (0, 2) and "src_type_by_src" not in src_txt and \
+            "width_by_dst = dict(zip(dst_types, op.input_widths.iter_values(), strict=True))" in src_txt:
+        width_by_dst = True
+    else:
+        raise Untranslatable(f"the width of a move is looked up in an unmodelled way ({n_old}, {n_new})")
+    return root_free, xor_old, zero_first, cnt_by_reg, width_by_dst
+
+
+FLAGS = ("root_free", "xor_old", "zero_first", "cnt_by_reg", "width_by_dst")
 
 
 def generate(ctx):
     global VARIANT
-    root_free, xor_old = detect_variant()
-    VARIANT = f"(mkCfg {coq_bool(root_free)} {coq_bool(xor_old)})"
-    ctx.coverage["model_variant"] = {
-        "root_free": root_free, "xor_old": xor_old,
-        "meaning": ("pinned tree (theorems: C20_*_refuted + C20_partial)" if root_free and xor_old else
-                    "both repairs applied (theorems: C20_simultaneous, C20_frame, C20_failure_reported, ...)"
-                    if not root_free and not xor_old else "one of the two repairs applied (correspondence and oracle only)")}
+    flags = detect_variant()
+    VARIANT = "(mkCfg " + " ".join(coq_bool(f) for f in flags) + ")"
+    meaning = {(True, True, False, False, False): "pinned tree (theorems: C20_*_refuted + C20_partial)",
+               (False, False, False, False, False): "C20-1 + C20-2 applied (theorems: C20_simultaneous, C20_frame, C20_failure_reported, ... under `wf`)",
+               (False, False, True, True, True): "C20-1 .. C20-5 applied (theorems: C20_all_* under the weaker `wf_all`)"}
+    ctx.coverage["model_variant"] = dict(zip(FLAGS, flags))
+    ctx.coverage["model_variant"]["meaning"] = meaning.get(tuple(flags), "a mix of repairs without its own theorems (correspondence and oracle only)")
 
 
 def coq_moves(moves):
